@@ -66,7 +66,7 @@ def extra(v, suite, ops, rnd, tier, h, d):
 
 
 def run(tier):
-    return bf.run_family("C02", tier, "scan", build, {"complete"},
+    return bf.run_family("C02", tier, "scan+nested", build, {"complete"},
                          "IndexedSelect through every index of every table of the generated databases (multi-column, COLLATE, DESC, UNIQUE, "
                          "partial, expression, automatic indexes; rowid and WITHOUT ROWID tables with primary keys in odd positions; NULLs and "
                          "mixed classes; entries in interior pages and with overflow): the recorded operation is judged by TLC against "
